@@ -279,14 +279,14 @@ fn pf_eof_6() {
 // StreamingInner::poll_frame is replaced by a scripted stub here (its own behaviour is decided by pf_* above);
 // decode_chunk and the decoder call are the real code.
 // ------------------------------------------------------------------------------------------------
-static mut PF_SCRIPT: [u8; 3] = [0; 3];
+static mut PF_SCRIPT: [u8; 2] = [0; 2];
 static mut PF_POS: usize = 0;
 static mut PF_CALLS: u32 = 0;
 
 fn poll_frame_stub(_this: &mut StreamingInner, _cx: &mut Context<'_>) -> Poll<Result<Option<()>, Status>> {
     unsafe {
         PF_CALLS += 1;
-        if PF_POS >= 3 {
+        if PF_POS >= 2 {
             return Poll::Pending;
         }
         let e = PF_SCRIPT[PF_POS];
@@ -297,6 +297,17 @@ fn poll_frame_stub(_this: &mut StreamingInner, _cx: &mut Context<'_>) -> Poll<Re
             2 => Poll::Ready(Ok(Some(()))),   // "data was appended" (the stub appends nothing: the decoder will ask again)
             _ => Poll::Ready(Err(Status::new(Code::Unavailable, ""))),
         }
+    }
+}
+
+/// stands in for crate::status::infer_grpc_status in the glue harness (the real one is decided by st_infer_http / st_fhm_*):
+/// any of its three possible outcomes
+fn infer_stub(_trailers: Option<&HeaderMap>, _status: StatusCode) -> Result<(), Option<Status>> {
+    let k: u8 = kani::any();
+    match k % 3 {
+        0 => Ok(()),
+        1 => Err(None),
+        _ => Err(Some(Status::new(Code::Aborted, ""))),
     }
 }
 
@@ -313,7 +324,7 @@ impl Decoder for CountDec {
 
 fn pn_glue<const N: usize>() {
     let bytes: [u8; N] = kani::any();
-    let script: [u8; 3] = kani::any();
+    let script: [u8; 2] = kani::any();
     unsafe {
         PF_SCRIPT = script;
         PF_POS = 0;
@@ -321,7 +332,7 @@ fn pn_glue<const N: usize>() {
     }
     let mut s = Streaming::<usize> {
         decoder: Box::new(CountDec),
-        inner: mk_inner(Body::empty(), Direction::Request, kani::any()),
+        inner: mk_inner(Body::empty(), any_direction(), kani::any()),
     };
     s.inner.buf.put_slice(&bytes);
     let start_terminal: bool = kani::any();
@@ -363,6 +374,7 @@ fn pn_glue<const N: usize>() {
 #[kani::unwind(6)]
 #[kani::stub(alloc::fmt::format, fmt_stub)]
 #[kani::stub(StreamingInner::poll_frame, poll_frame_stub)]
+#[kani::stub(crate::status::infer_grpc_status, infer_stub)]
 fn pn_glue_0() {
     pn_glue::<0>()
 }
@@ -370,6 +382,7 @@ fn pn_glue_0() {
 #[kani::unwind(6)]
 #[kani::stub(alloc::fmt::format, fmt_stub)]
 #[kani::stub(StreamingInner::poll_frame, poll_frame_stub)]
+#[kani::stub(crate::status::infer_grpc_status, infer_stub)]
 fn pn_glue_5() {
     pn_glue::<5>()
 }
@@ -377,6 +390,7 @@ fn pn_glue_5() {
 #[kani::unwind(6)]
 #[kani::stub(alloc::fmt::format, fmt_stub)]
 #[kani::stub(StreamingInner::poll_frame, poll_frame_stub)]
+#[kani::stub(crate::status::infer_grpc_status, infer_stub)]
 fn pn_glue_6() {
     pn_glue::<6>()
 }
